@@ -375,4 +375,92 @@ def substringAfterC (col : Collation) (s t : Str) : Str :=
   | none => []
   | some i => s.drop (i + t.length)
 
+/-! ### F&O 3.1 §5.4.? `fn:contains-token`
+"Leading and trailing whitespace is trimmed from the supplied value of `$token`. If the trimmed value
+is a zero-length string, the function returns false.  The function returns true if and only if there
+is a string in `$input` which, after tokenizing at whitespace boundaries, contains a token that is
+equal to the trimmed value of `$token` under the rules of the selected collation":
+`some $t in $input ! fn:tokenize(.) satisfies compare($t, trim($token), $collation) eq 0`, where
+`fn:tokenize($s)` is `fn:tokenize(fn:normalize-space($s), ' ')` (the empty sequence for `''`). -/
+
+/-- `fn:tokenize($s, ' ')` for a non-empty `$s`: split at every single space -/
+def splitSpace : Str → List Str
+  | [] => [[]]
+  | c :: cs =>
+    match splitSpace cs with
+    | [] => [[]]
+    | w :: ws => if c = 0x20 then [] :: w :: ws else (c :: w) :: ws
+
+/-- `fn:tokenize($s)` (one argument) -/
+def tokenize1 (s : Str) : List Str :=
+  match normalizeSpace s with
+  | [] => []
+  | ns => splitSpace ns
+
+def containsToken (col : Collation) (input : List Str) (token : Str) : Bool :=
+  let tok := trim token
+  if tok.isEmpty then false
+  else input.any fun s => (tokenize1 s).any fun t => compareC col t tok == 0
+
+/-! ### XPath 1.0 §4.2 `string()` of a number or boolean (the conversion applied to every non-string
+argument of the 1.0 string functions)
+"NaN is converted to the string NaN; positive zero and negative zero to 0; positive infinity to
+Infinity, negative infinity to -Infinity; if the number is an integer, the number is represented in
+decimal form as a Number with no decimal point and no leading zeros, preceded by a minus sign if the
+number is negative; otherwise, the number is represented in decimal form as a Number including a
+decimal point with at least one digit before the decimal point and at least one digit after the
+decimal point, preceded by a minus sign if negative; there must be no leading zeros before the decimal
+point apart possibly from the one required digit immediately before the decimal point; beyond the one
+required digit after the decimal point there must be as many, but only as many, more digits as are
+needed to uniquely distinguish the number from all other IEEE 754 numeric values."  The boolean false
+value is converted to the string false, true to true.
+
+A finite number is given by its decimal digits: `digits = [d1, …, dn]` and the position of the point
+`dot`, value `0.d1…dn × 10^dot`.  For a double the digits are the shortest digit string that
+distinguishes it (the last clause of the quotation); they are an input here (computed by the
+platform's `dtoa`, trusted). -/
+
+inductive NumArg where
+  | bool (b : Bool)
+  | int (v : Int)
+  /-- `decimal.Decimal`: sign, coefficient digits, exponent (value `digits × 10^exp`) -/
+  | dec (neg : Bool) (digits : List Nat) (exp : Int)
+  | fnan
+  | finf (neg : Bool)
+  /-- finite float: sign, shortest round-trip digits, decimal point position -/
+  | flt (neg : Bool) (digits : List Nat) (decpt : Int)
+  deriving DecidableEq, Repr
+
+def digitChars (ds : List Nat) : Str := ds.map (0x30 + ·)
+
+def natDigits (n : Nat) : List Nat := (Nat.toDigits 10 n).map fun c => c.toNat - 0x30
+
+def zeros (n : Nat) : List Nat := List.replicate n 0
+
+def stripLeadingZeros (ds : List Nat) : List Nat := ds.dropWhile (· == 0)
+def stripTrailingZeros (ds : List Nat) : List Nat := (ds.reverse.dropWhile (· == 0)).reverse
+
+/-- canonical XPath 1.0 text of the non-negative value `0.d1…dn × 10^dot` with sign `neg` -/
+def canonNumber (neg : Bool) (digits : List Nat) (dot : Int) : Str :=
+  let lead := (digits.takeWhile (· == 0)).length
+  let ds := stripTrailingZeros (stripLeadingZeros digits)
+  let dot := dot - lead
+  if ds.isEmpty then [0x30]        -- positive and negative zero
+  else
+    let sign : Str := if neg then [0x2D] else []
+    let n := ds.length
+    if dot ≥ n then sign ++ digitChars (ds ++ zeros (dot - n).toNat)          -- an integer
+    else if dot ≤ 0 then sign ++ [0x30, 0x2E] ++ digitChars (zeros (-dot).toNat ++ ds)
+    else sign ++ digitChars (ds.take dot.toNat) ++ [0x2E] ++ digitChars (ds.drop dot.toNat)
+
+def xp1String : NumArg → Str
+  | .bool true => [116, 114, 117, 101]
+  | .bool false => [102, 97, 108, 115, 101]
+  | .int v => (if v < 0 then [0x2D] else []) ++ digitChars (natDigits v.natAbs)
+  | .dec neg digits exp => canonNumber neg digits (digits.length + exp)
+  | .fnan => [78, 97, 78]
+  | .finf false => [73, 110, 102, 105, 110, 105, 116, 121]
+  | .finf true => [0x2D, 73, 110, 102, 105, 110, 105, 116, 121]
+  | .flt neg digits decpt => canonNumber neg digits decpt
+
 end EPV.FOStrings
